@@ -31,13 +31,14 @@ struct FailAfter {
     data: Vec<u8>,
     pos: usize,
     fail_at: Option<usize>,
+    kind: std::io::ErrorKind,
 }
 impl Read for FailAfter {
     fn read(&mut self, buf: &mut [u8]) -> std::io::Result<usize> {
         let end = self.fail_at.unwrap_or(self.data.len());
         if self.pos >= end {
             return match self.fail_at {
-                Some(_) => Err(std::io::Error::new(std::io::ErrorKind::Other, "scripted failure")),
+                Some(_) => Err(std::io::Error::new(self.kind, "scripted failure")),
                 None => Ok(0),
             };
         }
@@ -75,9 +76,16 @@ pub fn run(op: &str, args: &[&str]) -> Option<String> {
             }
         }
         /* text, and "N" or the number of lines after which the reader fails */
-        ("scan.read", [s, k]) => {
-            let data = text(s).into_bytes();
-            let fail_at = if *k == "N" {
+        /* scan.readb takes raw bytes (possibly not UTF-8); the failure may carry an error kind: <k>:I InvalidData, <k>:E UnexpectedEof */
+        ("scan.read", [s, k]) | ("scan.readb", [s, k]) => {
+            let data = if op == "scan.readb" { bytes(s) } else { text(s).into_bytes() };
+            let (k, kind) = match k.split_once(':') {
+                Some((a, "I")) => (a, std::io::ErrorKind::InvalidData),
+                Some((a, "E")) => (a, std::io::ErrorKind::UnexpectedEof),
+                Some((a, _)) => (a, std::io::ErrorKind::BrokenPipe),
+                None => (*k, std::io::ErrorKind::Other),
+            };
+            let fail_at = if k == "N" {
                 None
             } else {
                 let k: usize = k.parse().unwrap();
@@ -97,7 +105,7 @@ pub fn run(op: &str, args: &[&str]) -> Option<String> {
                 }
                 Some(off)
             };
-            let r = std::io::BufReader::new(FailAfter { data, pos: 0, fail_at });
+            let r = std::io::BufReader::new(FailAfter { data, pos: 0, fail_at, kind });
             match ScanIndex::from_reader(r) {
                 Ok(v) => format!(
                     "OK:{}",
